@@ -509,7 +509,14 @@ def _symbolic_for(interp, s, frame, state, space):
                 else:
                     frame.env[name] = UnboundAfterLoop(name, where)
             elif summ[0] != "sum":
-                frame.env[name] = UnboundAfterLoop(name, where)
+                pre, post = pre_env.get(name, _MISSING), summ[1] if len(summ) > 1 else _MISSING
+                if (summ[0] == "last_obj" and isinstance(pre, A.Arr) and isinstance(post, A.Arr) and pre.sid == post.sid
+                        and pre.view is None and post.view is None and pre.sid in pre_heap):
+                    # the name is bound to the same (pre-allocated) array object before and after every iteration
+                    # (A += x, A[...] = x): zero trips leave the same binding; the content is the summarised cell
+                    frame.env[name] = pre
+                else:
+                    frame.env[name] = UnboundAfterLoop(name, where)
     for sid, c in heap_f.items():
         if sid in summary_heap:
             st.heap[sid] = c
@@ -578,6 +585,11 @@ def _eq_goals(a, b):
         a, b = sv.as_cx(a), sv.as_cx(b)
         return _eq_goals(a.re, b.re) + _eq_goals(a.im, b.im)
     if sv.is_scalar(a) and sv.is_scalar(b):
+        # both sides in z3's simplified form: syntactic variants of one term (-x / -1*x, argument order) become identical
+        if isinstance(a, SV) and not a.is_bool:
+            a = sv.wrap(z3.simplify(a.t))
+        if isinstance(b, SV) and not b.is_bool:
+            b = sv.wrap(z3.simplify(b.t))
         r = sv.cmp("==", a, b)
         if is_conc(r):
             return [z3.BoolVal(bool(r))]
@@ -701,7 +713,7 @@ def _summarise_array(sid, shape, dt, idx, prev, postv, iz, lo, hi, hv_consts, hv
                             def newv():
                                 v = _subst_val(_subst_val(val_p, [(iz, w)]), pairs)
                                 if holes:
-                                    v = _subst_val(v, list(zip(holes, _terms_of(pre_fn(ix)))))
+                                    v = _subst_val(v, list(zip(holes, _z3_parts(pre_fn(ix), holes))))
                                 return v
                             return ite(sv.wrap(z3.simplify(c)), newv, lambda: pre_fn(ix))
                         return Content("arr", A._memo(fn), meta)
@@ -718,10 +730,81 @@ def _summarise_array(sid, shape, dt, idx, prev, postv, iz, lo, hi, hv_consts, hv
                                        lambda: pre_fn(ix))
                         return Content("arr", A._memo(fn), meta)
                     return at
+            # (2d) read-modify-write with reads of the array's own old content at other index terms: candidate = every
+            #      position is written at most once, so the old content read there is the pre-loop content (the step
+            #      obligation checks the candidate like any other summary)
+            if any(_contains_any(t, hv_consts, hv_funcs) for t in _terms_of(val)):
+                val2 = _replace_own_havoc(val, prev, pre_fn)
+                if val2 is not None and not any(_contains_any(t, hv_consts, hv_funcs) for t in _terms_of(val2)):
+                    sol = _solve_writer(cond, iz, idz)
+                    if sol is not None:
+                        w, residual = sol
+
+                        def at(k):
+                            def fn(ix, k=k):
+                                pairs = [(a, sv.znum(b)) for a, b in zip(idz, ix)]
+                                wk = z3.simplify(z3.substitute(w, *pairs))
+                                c = z3.And(wk >= sv.znum(lo), wk < sv.znum(k), z3.substitute(residual, *pairs))
+                                return ite(sv.wrap(z3.simplify(c)), lambda: _subst_val(_subst_val(val2, [(iz, w)]), pairs),
+                                           lambda: pre_fn(ix))
+                            return Content("arr", A._memo(fn), meta)
+                        return at
     import os
     if os.environ.get("PYVC_DEBUG_LOOPS"):
         print("LOOP-DEBUG post:", _subst_val(postv, []), "\n  prev:", prev, "\n  iz:", iz)
     raise EngineError(f"array #{sid}: loop effect is neither an accumulation nor an affine scatter store — needs a written summary")
+
+
+def _replace_own_havoc(val, prev, pre_fn):
+    """replace every application H(args) of the havocked content function(s) of this array inside `val` by the pre-loop
+    content at args"""
+    prev = norm(prev)
+    names = {}
+    if isinstance(prev, Cx):
+        parts = (("re", prev.re), ("im", prev.im))
+    else:
+        parts = ((None, prev),)
+    for tag, pt in parts:
+        if not (isinstance(pt, SV) and z3.is_app(pt.t) and pt.t.decl().kind() == z3.Z3_OP_UNINTERPRETED and pt.t.num_args() > 0):
+            return None
+        names[pt.t.decl().name()] = tag
+    pairs = []
+    seen = set()
+    stack = list(_terms_of(val))
+    while stack:
+        e = stack.pop()
+        if e.get_id() in seen:
+            continue
+        seen.add(e.get_id())
+        if z3.is_app(e) and e.decl().kind() == z3.Z3_OP_UNINTERPRETED and e.decl().name() in names:
+            pv = norm(pre_fn(tuple(sv.wrap(a) for a in e.children())))
+            tag = names[e.decl().name()]
+            if isinstance(pv, Cx):
+                pv = pv.re if tag != "im" else pv.im
+            elif tag == "im":
+                pv = 0
+            pairs.append((e, sv.zr(pv) if z3.is_real(e) else sv.z(pv)))
+        stack.extend(e.children())
+    if not pairs:
+        return None
+    return _subst_val(val, pairs)
+
+
+def _z3_parts(v, like):
+    """z3 terms of the components of a scalar value (re, im for complex), also for concrete values, in the sorts of `like`"""
+    v = norm(v)
+    parts = [v.re, v.im] if isinstance(v, Cx) else [v]
+    if len(parts) < len(like):
+        parts = parts + [0] * (len(like) - len(parts))
+    out = []
+    for x, h in zip(parts, like):
+        if z3.is_bool(h):
+            out.append(sv.zb(x))
+        elif z3.is_int(h):
+            out.append(sv.znum(x))
+        else:
+            out.append(sv.zr(x))
+    return out
 
 
 def _decompose_store(postv, prev):
@@ -758,8 +841,26 @@ def _decompose_store(postv, prev):
         return z3.BoolVal(True), t
     cond, val = dec(postv.t)
     if val is None or z3.is_false(cond) or z3.is_true(cond):
-        return None
+        return _decompose_store_simplified(postv, prev)
     return cond, sv.wrap(val)
+
+
+def _decompose_store_simplified(postv, prev):
+    """no leaf of the ite-tree is syntactically `prev`: bring the term to z3's simplified form and take cofactors (inside the
+    then-branch the guard is true, inside the else-branch it is false)"""
+    t = postv.t
+    if z3.is_app(t) and t.decl().kind() == z3.Z3_OP_ITE:
+        ts = z3.simplify(t)
+        if z3.is_app(ts) and ts.decl().kind() == z3.Z3_OP_ITE:
+            c2, x2, y2 = ts.children()
+            x2 = z3.simplify(z3.substitute(x2, (c2, z3.BoolVal(True))))
+            y2 = z3.simplify(z3.substitute(y2, (c2, z3.BoolVal(False))))
+            ps = z3.simplify(prev.t)
+            if ps.eq(y2):
+                return c2, sv.wrap(x2)
+            if ps.eq(x2):
+                return z3.Not(c2), sv.wrap(y2)
+    return None
 
 
 def _index_equalities(cond, idz):
@@ -1066,7 +1167,9 @@ def _rebind_obj(v, st1, st, iz, last):
         c = st1.heap.get(v.sid)
         if c is None:
             return v
-        if v.sid in st.heap and st.heap[v.sid] is c:
+        if v.sid in st.heap:
+            # the cell exists outside the loop body (allocated before the loop): its content after the loop is the one the
+            # summary installed (or the unchanged pre-loop content), never the discovery run's havocked content
             return v
         fn = c.data
 
